@@ -230,11 +230,16 @@ pub fn dispatch(p: &[String]) -> String {
             let answers: Vec<char> = if p.len() > 2 { p[2].chars().collect() } else { vec![] };
             let mut c = crate::consumer::Scripted::new(answers);
             let r = rspirv::binary::parse_bytes(&bytes, &mut c);
+            // the consumer's own error value must come back: downcast what ConsumerError carries
+            let mut own = "null".to_string();
+            if let Err(rspirv::binary::ParseState::ConsumerError(ref e)) = r {
+                own = match e.downcast_ref::<crate::consumer::ScriptError>() { Some(x) => x.0.to_string(), None => "\"not the consumer's error value\"".to_string() };
+            }
             let res = match r {
                 Ok(()) => "\"Ok\"".to_string(),
                 Err(e) => jstr(&format!("{:?}", e)),
             };
-            format!("{{\"events\": [{}], \"result\": {}}}", c.log.iter().map(|x| jstr(x)).collect::<Vec<_>>().join(", "), res)
+            format!("{{\"events\": [{}], \"result\": {}, \"own_error\": {}}}", c.log.iter().map(|x| jstr(x)).collect::<Vec<_>>().join(", "), res, own)
         }
         "loader_step" => crate::sweep::loader_step(p[1] == "1", p[2] == "1", p[3].parse::<u32>().unwrap()),
         "loader_finalize" => crate::sweep::loader_finalize(p[1] == "1", p[2] == "1"),
